@@ -761,6 +761,10 @@ def h4(ctx, rep, entries, O):
                 # `any(x in L: f(x) != f(L[0]))`: true iff the f-values are not all equal, whichever element comes first
                 adm["all-equal-test"] = adm.get("all-equal-test", 0) + 1
                 continue
+            if t.op == "slice_from" and len(t.a) > 1 and t.a[1] is tm.ONE and tail_all_equal(t, par):
+                # `rest.iter().any(|x| f(x) != f(first))` with (first, rest) = split_first(L): the all-equal test again
+                adm["all-equal-test"] = adm.get("all-equal-test", 0) + 1
+                continue
             if t.op == "fold_last" and isinstance(t.a[1], tm.T) and t.a[1].op == "lam":
                 el = tm.sym("cls:flel")
                 if el not in tm.free_syms(tm.apply_lam(t.a[1], [el])):
@@ -780,7 +784,7 @@ def h4(ctx, rep, entries, O):
 
 
 def _base_list(x):
-    while isinstance(x, tm.T) and x.op in ("collect", "map", "iter", "cloned", "copied"):
+    while isinstance(x, tm.T) and x.op in ("collect", "map", "iter", "cloned", "copied", "slice_from"):
         x = x.a[0]
     return x
 
@@ -812,6 +816,34 @@ def all_equal_test(t, par):
             else:
                 return False
     return reached
+
+
+def tail_all_equal(t, par):
+    """slice_from(L, 1) is only the domain of `any`/`all` tests that compare each element with L[0]."""
+    base = _base_list(t)
+    todo = [t]
+    seen = set()
+    ok = False
+    while todo:
+        x = todo.pop()
+        if x.id in seen:
+            continue
+        seen.add(x.id)
+        ps = par.get(x.id, [])
+        if not ps:
+            return False
+        for p in ps:
+            if p.op in ("iter", "map", "collect", "cloned", "copied"):
+                todo.append(p)
+            elif p.op in ("any", "all") and isinstance(p.a[1], tm.T) and p.a[1].op == "lam":
+                firsts = [y for y in tm.subterms(p.a[1]) if y.op == "index" and len(y.a) > 1 and y.a[1] is tm.ZERO
+                          and isinstance(y.a[0], tm.T) and _base_list(y.a[0]) is base]
+                if not firsts:
+                    return False
+                ok = True
+            else:
+                return False
+    return ok
 
 
 def only_length_use(t, par, root=None):
